@@ -28,7 +28,7 @@ func TestMain(m *testing.M) {
 
 type S struct{ A int }
 
-var vals = []interface{}{1, 2, "x", "y", true, 3.5, S{1}, int64(1), uint8(2)}
+var vals = []interface{}{1, 2, "x", "y", true, 3.5, S{1}, int64(1), uint8(2), 2.000001, 2.000002, false, "", "1", S{2}, float32(1.5)}
 
 type mrule struct {
 	r    *hotspot.Rule
@@ -245,7 +245,7 @@ func TestPerValueCap(t *testing.T) {
 				} else {
 					na := rapid.IntRange(0, 3).Draw(t, "nargs")
 					for k := 0; k < na; k++ {
-						args = append(args, vals[rapid.IntRange(0, 5).Draw(t, "v")])
+						args = append(args, vals[rapid.IntRange(0, len(vals)-1).Draw(t, "v")])
 					}
 				}
 				enter(res, args, att)
@@ -281,7 +281,7 @@ func TestPerValueCap(t *testing.T) {
 			}
 		}
 		probeRes := rapid.SampledFrom([]string{"a", "b"}).Draw(t, "probeRes")
-		pv := vals[rapid.IntRange(0, 5).Draw(t, "probeV")]
+		pv := vals[rapid.IntRange(0, len(vals)-1).Draw(t, "probeV")]
 		for k := 0; k < 6; k++ {
 			if keyedRes(ms, probeRes) {
 				enter(probeRes, nil, map[interface{}]interface{}{"k": pv})
